@@ -126,6 +126,9 @@ func newPackage(program *loader.Program, pkgInfo *loader.PackageInfo, plugins []
 
 		changed := false
 		calls := append(fileInfo.undefined, fileInfo.derived...)
+		// Register the calls in source order, whether or not derived.gen.go already defines them,
+		// otherwise the order of the generated functions depends on the previous contents of derived.gen.go.
+		sort.Slice(calls, func(i, j int) bool { return calls[i].Expr.Pos() < calls[j].Expr.Pos() })
 		for _, call := range calls {
 			// log.Printf("call: %v", call.Name)
 			if call.HasUndefined() {
